@@ -130,7 +130,7 @@ def one_case(rng):
 
 
 def cases(rng, tier):
-    n = 3000 if tier == "quick" else 200000
+    n = 8000 if tier == "quick" else 200000
     out = [one_case(rng) for _ in range(n)]
     # targeted: same-origin hop first, then cross-origin (custom removal set must survive the first increment)
     A = ["http", "a.example", None]
